@@ -19,3 +19,27 @@ pub axiom fn axiom_contains_string()
 pub uninterp spec fn vx_utf8_len(s: Seq<char>) -> nat;
 pub assume_specification[ String::len ](s: &String) -> (r: usize)
     ensures r as nat == vx_utf8_len(s@);
+
+// `s.starts_with(c)` for a char pattern.  The pattern parameter is generic
+// (unstable trait core::str::pattern::Pattern), so the specification is stated
+// through an uninterpreted predicate plus an axiom for P = char.
+pub uninterp spec fn vx_starts_with<P>(s: Seq<char>, p: P) -> bool;
+pub assume_specification<P: core::str::pattern::Pattern>[ str::starts_with::<P> ](s: &str, p: P) -> (r: bool)
+    ensures r == vx_starts_with(s@, p);
+pub axiom fn axiom_starts_with_char(s: Seq<char>, c: char)
+    ensures vx_starts_with(s, c) == (s.len() > 0 && s[0] == c);
+
+// X7 call shim for `s.encode_utf16().count()` (Iterator::count is a provided
+// trait method for EncodeUtf16: no assume_specification possible): the number
+// of UTF-16 code units of s.
+pub open spec fn utf16_len(s: Seq<char>) -> nat
+    decreases s.len()
+{
+    if s.len() == 0 { 0 } else { utf16_len(s.drop_last()) + (if s.last() as u32 >= 0x10000 { 2nat } else { 1nat }) }
+}
+#[verifier::external_body]
+pub fn vx_utf16_count(s: &String) -> (r: usize)
+    ensures r as nat == utf16_len(s@)
+{
+    s.encode_utf16().count()
+}
